@@ -34,7 +34,12 @@ Verdict ==
           THEN <<"REJECT", "members emitted under other names or in another order">>
      ELSE LET c == CVals(T.cout, n)
               f == FVals(T.fout, n)
-          IN IF ~c.ok THEN <<"REJECT", "C value text is not an expression over earlier members">>
+              t == IF T.tree = <<>> THEN [ok |-> TRUE, vs |-> tv.vs] ELSE FVals(T.tree, n)
+          IN IF ~t.ok \/ t.vs # tv.vs
+             \* the harness prints the parser's own tree with every operation parenthesised: grouping (precedence,
+             \* associativity) is then explicit in the text
+             THEN <<"REJECT", "the expression tree the parser built does not denote the C++ value", t.vs, tv.vs>>
+             ELSE IF ~c.ok THEN <<"REJECT", "C value text is not an expression over earlier members">>
              ELSE IF c.vs # tv.vs THEN <<"REJECT", "C header value differs from C++", c.vs, tv.vs>>
              ELSE IF ~f.ok THEN <<"REJECT", "Fortran value text is not an expression over earlier members">>
              ELSE IF f.vs # tv.vs THEN <<"REJECT", "Fortran parameter differs from C++", f.vs, tv.vs>>
